@@ -636,7 +636,12 @@ func concLines(c *Ctx, evs []Event) {
 			seq, _ := arg(0).(uint64)
 			c.Lean(fmt.Sprintf("conc trpublish %d", seq), "ok")
 		case "t.done":
-			c.Lean("conc trdone", "ok")
+			// the sequence number the transaction reached: a Discard consumes its range without an event of its own
+			if seq, ok := arg(0).(uint64); ok {
+				c.Lean(fmt.Sprintf("conc trdone %d", seq), "ok")
+			} else {
+				c.Lean("conc trdone", "ok")
+			}
 		}
 	}
 }
